@@ -168,8 +168,8 @@ async fn run_random(rng: &mut Rng, adversarial: bool) -> Case {
 // connection level: the real process_acquired_room (through the verif hook) and the real cleanup on
 // top of the real lock service.  The harness plays (a) the select! loop of LocalPeerService::start
 // as far as locks are concerned: it takes the oldest grant out of the lock channel and calls
-// process_acquired_room; at the end of the connection it reads acquired_lock, calls cleanup and
-// drops the receiver; (b) the remote end of the room pull: every room task starts with
+// process_acquired_room; at the end of the connection it reads acquired_lock, calls cleanup, then
+// closes and drains the lock channel (unlocking what it still buffered); (b) the remote end of the room pull: every room task starts with
 // Query::RoomDefinition(room); the harness withholds the answer for as long as the task is to stay
 // in flight and answers with an error to let it end (every exit path of the task unlocks).
 // ================================================================================================
@@ -264,13 +264,12 @@ impl ConnSim {
                 let svc = self.svc.clone();
                 let st = self.conn(*c);
                 if !st.ended {
-                    // LocalPeerService::start after its loop: cleanup(acquired_lock), then the receiver is dropped
+                    // LocalPeerService::start after its loop: cleanup(acquired_lock), then close + drain lock_receiver
                     let mut rooms: Vec<Uid> = st.acquired.lock().await.iter().cloned().collect();
                     rooms.sort_by_key(|u| room_index(u));
                     LocalPeerService::cleanup(&svc, rooms).await;
-                    // the receiver lives until the end of the connection task (after cleanup and the disconnect
-                    // notification): the schedule chosen here lets the service handle the unlocks first, so a room
-                    // re-granted to this very connection lands in the channel that is about to be dropped
+                    // schedule chosen here: the service handles these unlocks while the channel is still open, so a
+                    // room re-granted to this very connection lands in the channel that is about to be closed
                     for _ in 0..8 { svc.unlock(uid_of(NOOP_ROOM)).await; }
                     end_of = Some(*c);
                 }
@@ -279,7 +278,15 @@ impl ConnSim {
         let mut g = vec![];
         if let Some(c) = end_of {
             g = self.drain();
+            let svc = self.svc.clone();
             let st = self.conn(c);
+            // lock_receiver.close(); while let Some(room) = lock_receiver.recv().await { lock_service.unlock(room).await; }
+            // (what the channel buffered has been moved into `inbox` by the harness' own draining, oldest first)
+            if let Some(rx) = st.rx.as_mut() {
+                rx.close();
+                while let Some(room) = rx.recv().await { st.inbox.push_back(room_index(&room)); }
+            }
+            while let Some(r) = st.inbox.pop_front() { svc.unlock(uid_of(r)).await; }
             st.rx = None;
             st.ended = true;
         }
@@ -424,9 +431,9 @@ async fn main() {
         use CEv::*;
         // K1 without any misbehaving caller: the connection ends while its room task runs
         out.push(run_conn_fixed(&sh, "conn-directed-K1-end-while-task-runs", 1, &[Request(1, vec![5]), Take(1), End(1), Request(2, vec![5]), Take(2), Finish(1, 5), Request(3, vec![5]), Take(3), Finish(2, 5), Finish(3, 5)]).await);
-        // K2: a grant waits in the lock channel of a connection that ends
-        out.push(run_conn_fixed(&sh, "conn-directed-K2-grant-lost-at-end", 2, &[Request(1, vec![5]), End(1), Request(9, vec![5]), Request(9, vec![6]), Take(9), Finish(9, 6), Request(8, vec![5])]).await);
-        out.push(run_conn_fixed(&sh, "conn-directed-K2-slot-lost", 1, &[Request(1, vec![5]), End(1), Request(9, vec![6]), Request(8, vec![7])]).await);
+        // former K2 (fixed by 2487a5d): a grant waits in the lock channel of a connection that ends; it must be released
+        out.push(run_conn_fixed(&sh, "conn-directed-fixedK2-grant-waiting-at-end", 2, &[Request(1, vec![5]), End(1), Request(9, vec![5]), Request(9, vec![6]), Take(9), Finish(9, 6), Request(8, vec![5])]).await);
+        out.push(run_conn_fixed(&sh, "conn-directed-fixedK2-slot-free-again", 1, &[Request(1, vec![5]), End(1), Request(9, vec![5]), Take(9), Finish(9, 5), Request(8, vec![6])]).await);
         // ends of idle connections release everything
         out.push(run_conn_fixed(&sh, "conn-directed-idle-end", 2, &[Request(1, vec![5, 6]), Take(1), Take(1), Request(2, vec![5, 7]), Finish(1, 6), Take(2), Finish(1, 5), End(1), Take(2), Finish(2, 5), Finish(2, 7), End(2), Request(9, vec![5]), Take(9), Finish(9, 5), Request(9, vec![6]), Request(1, vec![7])]).await);
         // end while a task runs, but nobody wants the room before the task ends: harmless
